@@ -12,6 +12,8 @@
      lostwake    check-then-sleep on a futex word the waker forgets to change -> lost wake-up in SOME schedule
      spin        a thread spins with nsync_spin_delay_ on a flag set by another -> terminates (park rule)
      pollers     two threads poll by taking/releasing a spinlock, a third sets the flag -> terminates
+     cycle       retry loop with a stale expected value and no yield, nobody else runnable -> non-progress cycle
+     rawspin     raw spin on a flag that a still-runnable thread will set -> terminates (unfair cycles are not alarms)
      stalepost   a wait loop like nsync's (timed semaphore wait, then a spin delay while "still waiting") that is
                  handed a stale post: the iteration has no net effect on memory, yet it must not be parked --
                  the next one sleeps to its deadline and ends the loop   -> terminates
@@ -28,7 +30,7 @@ static int *volatile leaked;
 static int futex_word, plain_flag;
 
 static int toy_setup (const char *program) {
-	static const char *const known[] = { "race", "norace", "relacq", "relaxed", "uaf", "deadstack", "overrun", "deadlock", "lostwake", "spin", "pollers", "stalepost", "futexconf", NULL };
+	static const char *const known[] = { "race", "norace", "relacq", "relaxed", "uaf", "deadstack", "overrun", "deadlock", "lostwake", "spin", "pollers", "stalepost", "futexconf", "cycle", "rawspin", NULL };
 	int i;
 	for (i = 0; known[i]; i++) if (!strcmp (program, known[i])) { snprintf (which, sizeof which, "%s", program); h_parse ("x"); return !strcmp (program, "pollers") || !strcmp (program, "futexconf") ? 3 : 2; }
 	return -1;
@@ -61,6 +63,18 @@ static void toy_thread (int me) {
 	else if (!strcmp (which, "lostwake")) {
 		if (me == 0) { if (!plain_flag) syscall (SYS_futex, &futex_word, FUTEX_WAIT | FUTEX_PRIVATE_FLAG, 0, NULL, NULL, 0); }
 		else { plain_flag = 1; syscall (SYS_futex, &futex_word, FUTEX_WAKE | FUTEX_PRIVATE_FLAG, 1, NULL, NULL, 0); }
+	}
+	else if (!strcmp (which, "cycle")) {
+		/* a retry loop with a stale expected value and no yield: once the other thread has changed the word and
+		   finished, the loop can never succeed -> non-progress cycle (the state recurs with nobody else runnable) */
+		if (me == 0) { uint32_t old = ATM_LOAD (&lockw); while (!ATM_CAS (&lockw, old, old + 2)) { } }
+		else { ATM_STORE_REL (&lockw, 1); }
+	}
+	else if (!strcmp (which, "rawspin")) {
+		/* a raw spin (no yield) on a flag that another, still runnable thread will set: the state recurs too, but
+		   a fair scheduler leaves the cycle -> clean */
+		if (me == 0) { while (ATM_LOAD_ACQ (&aflag) == 0) { } }
+		else { mc_point (); ATM_STORE_REL (&aflag, 1); }
 	}
 	else if (!strcmp (which, "spin")) {
 		if (me == 0) { unsigned a = 0; while (ATM_LOAD_ACQ (&aflag) == 0) a = nsync_spin_delay_ (a); }
